@@ -332,6 +332,7 @@ theorem loadStep_not_data (s s' : LoadSt) (l : Str) (hs : s.st ≠ .data) (h : l
   all_goals
     repeat' split at h
     all_goals first
+      | (cases h; done)
       | (cases h; simp; done)
       | (cases h; simp_all; done)
       | (have := loadCommon_st _ _ _ h; simp_all)
